@@ -1,8 +1,9 @@
 use crate::{GameServer, META_STATE};
 use futures_util::{StreamExt, TryStreamExt};
 use kube::runtime::watcher::Config;
+use kube::runtime::watcher::Event;
 use kube::runtime::{WatchStreamExt, watcher};
-use kube::{Api, Client};
+use kube::{Api, Client, ResourceExt};
 use passage_adapters::discovery::DiscoveryAdapter;
 use passage_adapters::{Error, Target};
 use std::fmt::{Debug, Formatter};
@@ -45,27 +46,26 @@ impl AgonesDiscoveryAdapter {
             Api::all(client.clone())
         };
 
-        // create the watch stream
-        let mut stream = watcher(servers, watch_config)
-            .default_backoff()
-            .applied_objects()
-            .boxed();
+        // create the watch stream (raw events, such that deletions and re-lists are observed)
+        let mut stream = watcher(servers, watch_config).default_backoff().boxed();
 
         // start listener
         let _inner = Arc::clone(&inner);
         let _token = token.clone();
         tokio::spawn(async move {
             info!("starting game server watcher");
+            // the targets collected during a (re-)list, replaces the cache once complete
+            let mut listed: Vec<Target> = Vec::new();
             loop {
                 // get next server update
-                let maybe_server = tokio::select! {
+                let maybe_event = tokio::select! {
                     biased;
                     _ = _token.cancelled() => break,
-                    maybe_server = stream.try_next() => maybe_server,
+                    maybe_event = stream.try_next() => maybe_event,
                 };
 
-                let server = match maybe_server {
-                    Ok(Some(server)) => server,
+                let event = match maybe_event {
+                    Ok(Some(event)) => event,
                     Ok(None) => break,
                     Err(err) => {
                         warn!(err = ?err, "error while watching game servers");
@@ -73,38 +73,64 @@ impl AgonesDiscoveryAdapter {
                     }
                 };
 
-                // map to target
-                let target: Target = match server.try_into() {
-                    Ok(target) => target,
-                    Err(err) => {
-                        warn!(err = ?err, "error while converting game server to target");
-                        continue;
+                match event {
+                    Event::Init => listed.clear(),
+                    Event::InitApply(server) => {
+                        if let Some(target) = Self::ready_target(&server) {
+                            listed.retain(|i| i.identifier != target.identifier);
+                            listed.push(target);
+                        }
                     }
-                };
-
-                // if ready, replace or push
-                let mut inner = _inner.write().await;
-                let state = target.meta.get(META_STATE).cloned().unwrap_or_default();
-                if state == "Ready" || state == "Allocated" {
-                    info!(uid = target.identifier, "adding game server to cache");
-                    let found = inner.iter_mut().find(|i| i.identifier == target.identifier);
-                    match found {
-                        Some(found) => *found = target,
-                        None => inner.push(target),
+                    Event::InitDone => {
+                        info!(len = listed.len(), "replacing game server cache");
+                        *_inner.write().await = std::mem::take(&mut listed);
                     }
-                    continue;
-                }
-
-                // remove
-                info!(uid = target.identifier, "removing game server from cache");
-                let found = inner.iter().position(|i| i.identifier == target.identifier);
-                if let Some(found) = found {
-                    inner.swap_remove(found);
+                    Event::Apply(server) => {
+                        let name = server.name_any();
+                        let mut inner = _inner.write().await;
+                        match Self::ready_target(&server) {
+                            // if ready, replace or push
+                            Some(target) => {
+                                info!(uid = target.identifier, "adding game server to cache");
+                                let found =
+                                    inner.iter_mut().find(|i| i.identifier == target.identifier);
+                                match found {
+                                    Some(found) => *found = target,
+                                    None => inner.push(target),
+                                }
+                            }
+                            // remove
+                            None => {
+                                info!(uid = name, "removing game server from cache");
+                                inner.retain(|i| i.identifier != name);
+                            }
+                        }
+                    }
+                    Event::Delete(server) => {
+                        let name = server.name_any();
+                        info!(uid = name, "removing deleted game server from cache");
+                        _inner.write().await.retain(|i| i.identifier != name);
+                    }
                 }
             }
         });
 
         Ok(Self { inner, token })
+    }
+}
+
+impl AgonesDiscoveryAdapter {
+    /// Converts the game server to a target if it is in a state that accepts players.
+    fn ready_target(server: &GameServer) -> Option<Target> {
+        let target: Target = match server.clone().try_into() {
+            Ok(target) => target,
+            Err(err) => {
+                warn!(err = ?err, "error while converting game server to target");
+                return None;
+            }
+        };
+        let state = target.meta.get(META_STATE).map(String::as_str);
+        matches!(state, Some("Ready" | "Allocated")).then_some(target)
     }
 }
 
